@@ -1,6 +1,6 @@
 #!/bin/bash
 # run every registered quick check against /repo, validate each evidence file; prints one line per property
-cd /verif
+cd "$(dirname "$(readlink -f "$0")")/.."
 for p in $(python3 -c "import json;print(' '.join(c['property_id'] for c in json.load(open('MANIFEST.json'))['checks']))"); do
   out=$(python3-vt check.py $p --tier ${1:-quick} 2>&1); rc=$?
   val=$(python3-vt -c "
